@@ -255,17 +255,19 @@ def readField (t : Tables) (pieces : List Bytes) (name : Bytes) : Par Tables := 
     let data ← readItems name t.players offset
     pure { t with players := data }
 
+/-- `field.split('_')`: the first piece must be a known field, else the section is left unread -/
+def afterName (t : Tables) (pieces : List Bytes) : Par Tables :=
+  match pieces.head? with
+  | none => Par.fail .packetBad
+  | some name =>
+    if !knownFields.contains name then pure t
+    else readField t pieces name
+
 /-- from the field name on -/
 def readSection (t : Tables) : Par Tables := do
   let field ← readCStr
   if field.isEmpty then pure t
-  else
-    let pieces := splitOn 0x5F field
-    match pieces.head? with
-    | none => Par.fail .packetBad
-    | some name =>
-      if !knownFields.contains name then pure t
-      else readField t pieces name
+  else afterName t (splitOn 0x5F field)
 
 /-- one round of the outer loop: a byte below 3 is a section marker; otherwise it is the first
 character of a field name: step back and read the section -/
